@@ -8,6 +8,7 @@ import os
 import io
 import random
 from io import StringIO
+from contextlib import redirect_stdout
 import copy
 from bisect import bisect_right, bisect_left
 
@@ -969,7 +970,9 @@ def readGraph(input_file,
         # networkx seems to mismanage that and to cause a TypeError
         #
         try:
-            G = networkx.nx_pydot.read_dot(input_file)
+            # pydot prints its parse diagnostics on the standard output
+            with redirect_stdout(StringIO()):
+                G = networkx.nx_pydot.read_dot(input_file)
             try:
                 # work around for a weird parse error in pydot, which
                 # adds an additiona vertex '\\n' in the graph.
